@@ -30,6 +30,9 @@ class NetStore:
         self.children = {}                           # index -> (eui bytes, nwk, type)
         self.sec_state_args = None
         self.cmd_order = []
+        self.tc_token = "ok"          # NV3 trust-centre token interface: "ok" | "bad" (error status) | "absent" (no special handling)
+        self.tc_token_write = "ok"
+        self.tc_token_pending = None  # address written to the token: the stack runs with it after its next reset
         self.install()
 
     # ---- helpers
@@ -77,6 +80,8 @@ class NetStore:
     def on_reset(self):
         self.running = False
         self.active_eui = self.token_eui()
+        if self.tc_token_pending is not None:
+            self.tc_eui, self.tc_token_pending = self.tc_token_pending, None
 
     def status_event(self, up):
         t = self.t
@@ -105,6 +110,9 @@ class NetStore:
         sty = rsp.fields[0].type                       # EmberStatus up to version 13, sl_Status in version 14
         always_value = rsp.fields[1].requires is None  # version 14 always carries the value field
         tok = int(a["token"])
+        if tok == int(t.NV3KeyId.NVM3KEY_STACK_TRUST_CENTER) and self.tc_token == "ok" and self.stored:
+            val = t.NV3StackTrustCenterToken(mode=0x0001, eui64=t.EUI64(self.tc_eui), key=t.KeyData(self.prekey)).serialize()
+            return [rsp(status=sty(0), value=t.LVBytes32(val))]
         if self.rewritable and tok == int(t.NV3KeyId.CREATOR_STACK_RESTORED_EUI64):
             return [rsp(status=sty(0), value=t.LVBytes32(self.custom_eui if self.custom_eui is not None else FF8))]
         bad = t.sl_Status.NOT_FOUND if sty is t.sl_Status else t.EmberStatus.ERR_FATAL
@@ -113,6 +121,12 @@ class NetStore:
     def c_setTokenData(self, a):
         self.note("setTokenData")
         data = bytes(a["token_data"])
+        if int(a["token"]) == int(self.t.NV3KeyId.NVM3KEY_STACK_TRUST_CENTER):
+            if self.tc_token_write == "bad":
+                return [self.st("setTokenData", False)]
+            tok, _ = self.t.NV3StackTrustCenterToken.deserialize(data)
+            self.tc_token_pending = bytes(tok.eui64.serialize())
+            return [self.st("setTokenData", True)]
         self.custom_eui = None if data == FF8 else data
         return [self.st("setTokenData", True)]
 
